@@ -11,13 +11,17 @@ trap cleanup EXIT
 cfg() { cmake -G Ninja -S "$WT" -B "$WT/_build" -DCMAKE_BUILD_TYPE=RelWithDebInfo -DCMAKE_C_FLAGS=-Wno-error >/dev/null 2>&1 && cmake --build "$WT/_build" -j8 >/dev/null 2>&1; }
 cfg || { echo "STEP0 baseline build failed"; exit 1; }
 mkdir -p "$WT/out/X" && cp -r "$S/demo" "$WT/out/X/demo"   # run.sh conventions differ: ROOT env, or "three levels up"
-( cd "$WT/out/X/demo" && ROOT="$WT" BUILD="$WT/_build" bash ./run.sh ) >"$WT/_demo_without.log" 2>&1
+# conventions differ between seed authors: ROOT/SRC env, NEOLITH=<binary>, or the tree as first positional argument
+ARGS=""
+if grep -qE '^(ROOT|SRC|SRC_ROOT|src|root)="?\$\{1:-' "$S/demo/run.sh"; then ARGS="$WT"; fi
+rundemo() { ( cd "$WT/out/X/demo" && ROOT="$WT" SRC="$WT" NEOLITH="$WT/_build/src/neolith" bash ./run.sh $ARGS ); }
+rundemo >"$WT/_demo_without.log" 2>&1
 rc0=$?
 git -C "$WT" apply "$S/patch.diff" || { echo "STEP2 patch does not apply"; exit 1; }
 cfg || { echo "STEP2 patched tree does not build"; exit 1; }
 ctest --test-dir "$WT/_build" -j8 --timeout 900 >"$WT/_ctest.log" 2>&1
 rct=$?
-( cd "$WT/out/X/demo" && ROOT="$WT" BUILD="$WT/_build" bash ./run.sh ) >"$WT/_demo_with.log" 2>&1
+rundemo >"$WT/_demo_with.log" 2>&1
 rc1=$?
 echo "demo without patch: rc=$rc0; test suite with patch: rc=$rct ($(grep -E 'tests passed|tests failed' "$WT/_ctest.log" | head -1)); demo with patch: rc=$rc1"
 if [ $rc0 -eq 0 ] && [ $rct -eq 0 ] && [ $rc1 -ne 0 ]; then echo CONFIRMED; exit 0; fi
